@@ -17,7 +17,6 @@ use hv::common::*;
 use hv::frontends;
 use hv::gen;
 use serde_json::{json, Value};
-use std::cell::RefCell;
 use std::collections::HashMap;
 use std::sync::atomic::{AtomicUsize, Ordering};
 use std::sync::{Arc, Mutex};
@@ -27,26 +26,14 @@ use std::time::{Duration, Instant};
 mod corr;
 
 // ---------------------------------------------------------------------------------------------
-// panic capture with location
+// panic capture with location (the hook installed by hv::cli() remembers it per thread)
 // ---------------------------------------------------------------------------------------------
-thread_local! {
-    static LAST_LOC: RefCell<String> = const { RefCell::new(String::new()) };
-}
-
-pub fn install_hook() {
-    std::panic::set_hook(Box::new(|info| {
-        let loc = info.location().map(|l| format!("{}:{}", l.file(), l.line())).unwrap_or_default();
-        LAST_LOC.with(|c| *c.borrow_mut() = loc);
-    }));
-}
-
 /// Like `guarded`, but also returns where the panic was raised (`file:line`, /repo-relative).
 pub fn guarded_loc<T>(f: impl FnOnce() -> T) -> Result<T, (String, String)> {
-    LAST_LOC.with(|c| c.borrow_mut().clear());
     match guarded(f) {
         Ok(v) => Ok(v),
         Err(m) => {
-            let loc = LAST_LOC.with(|c| c.borrow().clone());
+            let loc = last_panic_location();
             let loc = loc.strip_prefix("/repo/").map(|s| s.to_string()).unwrap_or(loc);
             // library panics (core/alloc/std, third-party crates) keep their registry path; shorten it
             let loc = match loc.find("/registry/src/") {
@@ -141,6 +128,7 @@ pub fn features(fe: &str, text: &str) -> Value {
     json!({
         "markdown_based": markdown_based(fe),
         "tab_after_container_marker": tab_after_container_marker(text),
+        "go_directive": fe.starts_with("c:go") && text.contains("go:"),
         "max_word_len": text.split(|c: char| c.is_whitespace()).map(|w| w.chars().count()).max().unwrap_or(0),
         "chars": text.chars().count(),
     })
@@ -148,10 +136,14 @@ pub fn features(fe: &str, text: &str) -> Value {
 
 #[derive(Clone, Debug)]
 pub enum Outcome {
-    Ok { tokens: usize, lints: usize, micros: u128 },
+    Ok { tokens: usize, lints: usize, micros: u128, bad_tokens: usize, unordered: bool },
     Panic { stage: &'static str, msg: String, loc: String },
     Hang { secs: u64 },
+    /// not run: the search was cut short after MAX_HANGS hangs (hung threads cannot be killed and keep a core busy)
+    Skipped,
 }
+
+const MAX_HANGS: usize = 6;
 
 pub struct Worker {
     dict: Arc<FstDictionary>,
@@ -209,7 +201,14 @@ impl Worker {
         let g = self.group(c.dialect);
         let r = guarded_loc(|| g.lint(&doc));
         match r {
-            Ok(l) => Outcome::Ok { tokens: doc.get_tokens().len(), lints: l.len(), micros: t0.elapsed().as_micros() },
+            Ok(l) => {
+                let n = doc.get_source().len();
+                let toks = doc.get_tokens();
+                // premise of the C01 pattern theorems (C02's invariant): every token lies inside the source
+                let bad_tokens = toks.iter().filter(|t| t.span.start > t.span.end || t.span.end > n).count();
+                let unordered = toks.windows(2).any(|w| w[0].span.end > w[1].span.start);
+                Outcome::Ok { tokens: toks.len(), lints: l.len(), micros: t0.elapsed().as_micros(), bad_tokens, unordered }
+            }
             Err((msg, loc)) => {
                 // the group's cache may be half-updated: rebuild it
                 self.groups.remove(&(c.dialect % 4));
@@ -230,7 +229,6 @@ pub fn run_cases(cases: Arc<Vec<Case>>, threads: usize, deadline: Duration) -> V
         std::thread::Builder::new()
             .stack_size(64 << 20)
             .spawn(move || {
-                install_hook();
                 let mut w = Worker::new();
                 loop {
                     let i = next.fetch_add(1, Ordering::SeqCst);
@@ -260,12 +258,14 @@ pub fn run_cases(cases: Arc<Vec<Case>>, threads: usize, deadline: Duration) -> V
         spawn(slot.clone(), next.clone(), results.clone(), cases.clone());
         slots.push(slot);
     }
+    let mut hangs = 0usize;
     loop {
         std::thread::sleep(Duration::from_millis(50));
         let done = results.lock().unwrap().iter().filter(|r| r.is_some()).count();
         if done >= n {
             break;
         }
+        let mut busy = 0;
         for k in 0..slots.len() {
             let cur = *slots[k].lock().unwrap();
             if let Some((i, t0)) = cur {
@@ -274,12 +274,31 @@ pub fn run_cases(cases: Arc<Vec<Case>>, threads: usize, deadline: Duration) -> V
                     if res[i].is_none() {
                         res[i] = Some(Outcome::Hang { secs: deadline.as_secs() });
                         drop(res);
+                        hangs += 1;
                         // abandon the hung thread (it cannot be killed) and start a fresh worker
                         let slot: Slot = Arc::new(Mutex::new(None));
-                        spawn(slot.clone(), next.clone(), results.clone(), cases.clone());
+                        if hangs < MAX_HANGS {
+                            spawn(slot.clone(), next.clone(), results.clone(), cases.clone());
+                        }
                         slots[k] = slot;
                     }
+                } else {
+                    busy += 1;
                 }
+            }
+        }
+        if hangs >= MAX_HANGS {
+            // enough evidence: stop handing out cases, let the cases in flight finish (or time out)
+            next.store(n, Ordering::SeqCst);
+            if busy == 0 && next.load(Ordering::SeqCst) >= n {
+                std::thread::sleep(Duration::from_millis(200));
+                let mut res = results.lock().unwrap();
+                for r in res.iter_mut() {
+                    if r.is_none() {
+                        *r = Some(Outcome::Skipped);
+                    }
+                }
+                break;
             }
         }
     }
@@ -470,7 +489,7 @@ fn generate(a: &Args, r: &mut Rng) -> Vec<Case> {
             }
         }
         // 2. generated documents
-        let n_docs = if wrapped { a.scale(10, 120) } else { a.scale(36, 500) };
+        let n_docs = if wrapped { a.scale(8, 120) } else { a.scale(30, 500) };
         let mut docs: Vec<String> = vec![];
         for i in 0..n_docs {
             let t = match i % 6 {
@@ -484,7 +503,7 @@ fn generate(a: &Args, r: &mut Rng) -> Vec<Case> {
             push(&mut cases, fe, t.clone(), "generated", r, false);
         }
         // 3. every prefix (x 3 endings) of a sample of the generated documents
-        let n_pref = if wrapped { a.scale(1, 6) } else { a.scale(3, 24) };
+        let n_pref = if wrapped { a.scale(1, 6) } else { a.scale(2, 24) };
         let mut taken = 0;
         for t in docs.iter().filter(|t| {
             let n = t.chars().count();
@@ -501,7 +520,7 @@ fn generate(a: &Args, r: &mut Rng) -> Vec<Case> {
         // every prefix of the unterminated-markup strings, joined (dense in construct boundaries)
         if !wrapped {
             let un = unterminated_for(fe);
-            let step = if a.thorough() { 1 } else { 4 };
+            let step = if a.thorough() { 1 } else { 6 };
             for (i, t) in un.iter().enumerate() {
                 if i % step != (r.below(step)) {
                     continue;
@@ -577,6 +596,10 @@ fn scaling_probe(rep: &mut Report, a: &Args) {
 
 // ---------------------------------------------------------------------------------------------
 fn record(rep: &mut Report, c: &Case, o: &Outcome) {
+    if matches!(o, Outcome::Skipped) {
+        rep.count("skipped_after_too_many_hangs");
+        return;
+    }
     rep.eval();
     let base = c.fe.split(':').next().unwrap().split('+').next().unwrap().to_string();
     rep.count(&format!("frontend:{}", if c.fe.starts_with("c:") { "comments" } else { &base }));
@@ -586,7 +609,15 @@ fn record(rep: &mut Report, c: &Case, o: &Outcome) {
     let n = c.text.chars().count();
     rep.count(&format!("chars:{}", if n == 0 { "0" } else if n < 16 { "1-15" } else if n < 64 { "16-63" } else if n < 256 { "64-255" } else if n < 1024 { "256-1023" } else { "1024+" }));
     match o {
-        Outcome::Ok { tokens, lints, micros } => {
+        Outcome::Ok { tokens, lints, micros, bad_tokens, unordered } => {
+            rep.monitor("docs_checked_for_tokens_inside_source", 1);
+            rep.monitor("tokens_outside_source", *bad_tokens as u64);
+            if *bad_tokens > 0 {
+                rep.fail("tokens_outside_source", format!("{bad_tokens} token(s) with a span outside the {n}-char source (premise toks_good of C01_pattern_bounded); no panic this time"), c.to_json());
+            }
+            if *unordered {
+                rep.count("docs_with_out_of_order_tokens");
+            }
             if *tokens > 0 {
                 rep.nontrivial(&(c.fe.clone(), c.text.clone()));
             }
@@ -606,11 +637,11 @@ fn record(rep: &mut Report, c: &Case, o: &Outcome) {
         Outcome::Hang { secs } => {
             rep.fail("hang", format!("no return within {secs} s for {} chars", n), c.to_json());
         }
+        Outcome::Skipped => rep.count("skipped_after_too_many_hangs"),
     }
 }
 
 pub fn run(a: &Args, corpus: &[Value]) {
-    install_hook();
     let mut rep = Report::new(&a.out);
     rep.rule = "documents: every front-end (plain, Markdown x2, HTML, Typst, LHS, git-commit, 22 comment languages; +CollapseIdentifiers / +IsolateEnglish wrappers) x {default, all rules, random} configuration x 4 dialects on generated documents (frontends::embed, gen::any_text, malformed stream), every prefix x {'', ' ', '\\n'} of a sample of them, unterminated markup per language and its prefixes, empty/whitespace-only input, 254-300-char words, astral characters; each under catch_unwind + panic-location hook + watchdog (10 s). pattern correspondence: random pattern trees over all public combinators x random token lists (incl. out-of-bounds spans) vs the extracted model; run_on_chunk via a custom PatternLinter; Mask glue via a recording inner parser; LHS masker via its parser. non-trivial = distinct (front-end, text) yielding >= 1 token, or distinct correspondence case".into();
     let threads = std::thread::available_parallelism().map(|n| n.get()).unwrap_or(8).min(16);
@@ -626,6 +657,7 @@ pub fn run(a: &Args, corpus: &[Value]) {
         }
     }
     let outs = run_cases(Arc::new(first.clone()), threads, deadline);
+    let outs0_hangs = outs.iter().filter(|o| matches!(o, Outcome::Hang { .. })).count();
     for (c, o) in first.iter().zip(&outs) {
         record(&mut rep, c, o);
         if a.replay.is_some() {
@@ -637,16 +669,15 @@ pub fn run(a: &Args, corpus: &[Value]) {
         return;
     }
 
-    // correspondence for the modelled cores
+    // the search (first: it runs under the watchdog; the correspondence below does not)
     let mut r = Rng::new(a.seed);
-    corr::run(&mut rep, a, &mut r.fork());
-
-    // the search
+    let mut corr_rng = r.fork();
     let cases = generate(a, &mut r);
     let cases = Arc::new(cases);
     let t0 = Instant::now();
     let outs = run_cases(cases.clone(), threads, deadline);
     let mut worst: (u128, usize) = (0, 0);
+    let mut hangs = outs0_hangs;
     for (i, (c, o)) in cases.iter().zip(&outs).enumerate() {
         record(&mut rep, c, o);
         if let Outcome::Ok { micros, .. } = o {
@@ -654,16 +685,25 @@ pub fn run(a: &Args, corpus: &[Value]) {
                 worst = (*micros, i);
             }
         }
+        if matches!(o, Outcome::Hang { .. }) {
+            hangs += 1;
+        }
     }
     rep.extra.insert("search_wall_s".into(), json!(t0.elapsed().as_secs_f64()));
     rep.extra.insert("search_threads".into(), json!(threads));
     if !cases.is_empty() {
         rep.extra.insert("slowest_case".into(), json!({"ms": worst.0 as f64 / 1000.0, "frontend": cases[worst.1].fe, "chars": cases[worst.1].text.chars().count()}));
     }
-    for o in outs.iter().filter(|o| matches!(o, Outcome::Ok { .. })).take(0) {
-        let _ = o;
-    }
     rep.sample(json!({"search_case": cases.get(7).map(|c| c.to_json())}));
+    if hangs > 0 {
+        // the code under test hangs somewhere: the single-threaded parts below have no watchdog
+        rep.extra.insert("skipped_after_hangs".into(), json!(["correspondence", "scaling_probe"]));
+        rep.finish();
+        return;
+    }
+
+    // correspondence for the modelled cores
+    corr::run(&mut rep, a, &mut corr_rng);
     scaling_probe(&mut rep, a);
     rep.finish();
 }
